@@ -353,6 +353,10 @@ def main(argv):
             for j in range(48 if thorough else 12):
                 lines.append(("p%d" % n, "P", "P", "P %d %d %d %d" % (itv, 3 * itv + 3, chk.rng.below(1 << 40), j % 2)))
                 n += 1
+        # 5b. vectors of protobuf messages: seeded random sequences with every special member function, two objects
+        for _ in range(1500 if thorough else 200):
+            lines.append(("q%d" % n, "Q", "Q", "Q %d" % chk.rng.below(1 << 40)))
+            n += 1
         # 6. arguments that alias an element of the vector operated on (std::vector is required to cope): monitor only
         for ty in ["i", "s"]:
             for k in range(1, 6):
@@ -368,11 +372,11 @@ def main(argv):
     text = {i: t for i, _, _, t in lines}
     impl_out, model_out = {}, {}
     if impl:
-        impl_out = chk.run_cases(impl, ["%s %s" % (i, t) for i, _, m, t in lines if m != "P"], timeout=900)
+        impl_out = chk.run_cases(impl, ["%s %s" % (i, t) for i, _, m, t in lines if m not in ("P", "Q")], timeout=900)
     if impl_pb:
-        impl_out.update(chk.run_cases(impl_pb, ["%s %s" % (i, t) for i, _, m, t in lines if m == "P"], timeout=900))
+        impl_out.update(chk.run_cases(impl_pb, ["%s %s" % (i, t) for i, _, m, t in lines if m in ("P", "Q")], timeout=900))
     if model:
-        model_out = chk.run_cases(model, ["%s %s" % (i, t) for i, _, m, t in lines if m not in ("S", "P", "A")], timeout=900)
+        model_out = chk.run_cases(model, ["%s %s" % (i, t) for i, _, m, t in lines if m not in ("S", "P", "A", "Q")], timeout=900)
 
     SIGS_V = [("cap_mono", "capacity-shrunk", "capacity of a vector decreased"),
               ("clear_keep", "clear-lost-capacity", "clear() changed capacity / constructed_size / buffer or left elements"),
@@ -396,6 +400,21 @@ def main(argv):
     for i, ty, mode, t in lines:
         rep = {"type": ty, "mode": mode, "case": t}
         il, ml = impl_out.get(i), model_out.get(i)
+        if mode == "Q":
+            if impl_pb and il is None:
+                chk.broke("harness", "no output for case " + i, t)
+            elif il is not None and (il.startswith("CRASH") or " | " not in il):
+                chk.violate("impl-crash", "SwissVector<ArenaExample> crashed on the seeded sequence: %s (%s)" % (t, il[:200]), rep)
+            elif il is not None:
+                mon = dict(kv.split("=") for kv in il.split(" | ")[1].split())
+                ops = il.split(" | ")[0]
+                if mon.get("size_le") != "1":
+                    chk.violate("size-order", "size <= constructed_size <= capacity broken on a vector of protobuf messages after "
+                                "op #%s of:%s" % (mon.get("first_bad"), ops[len(i):][:400]), dict(rep, ops=ops))
+                if mon.get("std_eq") != "1":
+                    chk.violate("contents-differ-from-std", "contents of a vector of protobuf messages differ from std::vector after "
+                                "op #%s of:%s" % (mon.get("first_bad"), ops[len(i):][:400]), dict(rep, ops=ops))
+            continue
         if mode == "P":
             if impl_pb and il is None:
                 chk.broke("harness", "no output for case " + i, t)
